@@ -284,6 +284,9 @@ func main() {
 
 var gTier = "quick"
 
+// gProp: the property being checked (empty for `govc func`): clauses tagged [Cxx] for other properties are skipped
+var gProp string
+
 func dumpFn(fn *ssa.Function) {
 	fn.WriteTo(os.Stdout)
 }
